@@ -36,7 +36,7 @@ ASSUMPTIONS = [
 ]
 BOUNDS = {'quick': {'coefs': [-.5, .25, .5], 'consts': [0., 1.]}, 'thorough': {'coefs': [-.5, -.25, .25, .5], 'consts': [0., 1., -3.5]}}
 
-DRESS = ['plain', 'lagexo', 'user-t-endo', 'user-t-exo', 'k-expr', 'loop-names', 'transfer', 'cap-names']
+DRESS = ['plain', 'lagexo', 'user-t-endo', 'user-t-exo', 'k-expr', 'loop-names', 'transfer', 'cap-names', 'math-funcs']
 MATH_ENV = dict((k, getattr(math, k)) for k in dir(math) if not k.startswith('_'))
 
 
@@ -70,6 +70,12 @@ def dress(eqs, kind, maxtime, excess):
         eqs.append(('DA', 'LAG_DA + g - 0.5*DA + 0.25*DB'))
         eqs.append(('DB', 'LAG_DB + 0.5*DA - 0.25*DB'))
         return Block(eqs, lags=[('LAG_DA', 'DA'), ('LAG_DB', 'DB')], exos=[('g', glist)], maxtime=maxtime, tol='1e-6')
+    if kind == 'math-funcs':
+        # every name of the math module is accepted by the parser and by the in-process solver
+        # (smooth functions only: a step function of an iterate that oscillates around 0 never settles, in either solver)
+        eqs.append(('mm', 'tanh(0.05*x) + atan2(y, 2.) + hypot(x, 3.) + erf(0.1*y) + log1p(x*x) + expm1(0.01*y) + degrees(0.1) + gamma(1.5)'))
+        eqs.append(('m2', '0.1*mm + radians(90.) + cosh(0.1*x) + asinh(y) + tau + ldexp(1., 3) + lgamma(2.5) + erfc(0.1*x)'))
+        return Block(eqs, maxtime=maxtime, tol='1e-6')
     if kind == 'cap-names':
         # upper-case names that differ from the reserved time / step names only by case (T is the usual name for taxes)
         eqs.append(('T', '.2*x + 1.'))
@@ -256,7 +262,7 @@ def run_block(block, gen_red, case):
         v, i = check_module(obj, block, c2)
         viols.extend(v)
         indet += i
-        if emission == 1 and not v:
+        if emission == 1 and not v and block.maxtime >= 1:
             # history on the emitted class: one period stepped by hand, then main() for the rest - same series as main() alone
             try:
                 obj2 = mod.SFCModel()
@@ -307,6 +313,16 @@ def run_block(block, gen_red, case):
     return ('ok' if not viols else 'violation'), viols, indet
 
 
+# blocks outside the menu product: boundary values of the run parameters
+SPECIAL = [
+    # loop-free block with lags, an initial condition and an exogenous list, solved exactly: a stated tolerance of 0 is met
+    ('tolerance-zero', Block([('x', 'LAG_x + g'), ('y', '2*x + 1'), ('z', 'y - LAG_y')], lags=[('LAG_x', 'x'), ('LAG_y', 'y')], ics={'x': '3.'},
+                             exos=[('g', '[1.0, 2.0, 3.0, 4.0]')], maxtime=3, tol='0')),
+    ('tolerance-zero-constants', Block([('x', '2.5'), ('y', 'x')], maxtime=2, tol='0.0')),
+    ('horizon-zero', Block([('x', '.5*y + 1.'), ('y', '.25*x')], maxtime=0, tol='1e-6')),
+]
+
+
 def units(tier):
     b = BOUNDS[tier]
     m0 = [m for m in rhs_menu(0, 2, b['coefs'], b['consts']) if row_sum(m[1]) <= .5 + 1e-12]
@@ -329,6 +345,17 @@ def run_unit(unit, tier):
     first = menus[0][unit['i0']]
     last = None
     try:
+        if n == 2 and unit['i0'] == 0:
+            for label, blk in SPECIAL:
+                for red in (False, True):
+                    case = {'special': label, 'generator_reduction': red}
+                    dig.add(('special', label, red))
+                    outcome, viols, indet = run_block(blk, red, case)
+                    res['evaluations'] += 1
+                    res['nontrivial'] += 1
+                    res['indeterminate'] += indet
+                    core.bump(res['outcomes'], 'special:%s:%s' % (label, outcome))
+                    res['violations'].extend(viols[:2])
         for rest in itertools.product(*menus[1:]):
             picks = [first] + list(rest)
             eqs = [(NAMES[i], picks[i][0]) for i in range(n)]
@@ -346,7 +373,7 @@ def run_unit(unit, tier):
                 continue
             simultaneous = any(NAMES[j] in picks[i][1] and NAMES[i] in picks[j][1] for i in range(n) for j in range(n) if i != j)
             for kind, maxtime, excess, red in itertools.product(DRESS, (1, 3), (False, True), (False, True)):
-                if excess and kind in ('plain', 'user-t-endo', 'k-expr', 'loop-names', 'transfer'):
+                if excess and kind in ('plain', 'user-t-endo', 'k-expr', 'loop-names', 'transfer', 'cap-names', 'math-funcs'):
                     continue
                 blk = dress(eqs, kind, maxtime, excess)
                 case = {'eqs': eqs, 'dress': kind, 'maxtime': maxtime, 'excess': excess, 'generator_reduction': red}
@@ -372,6 +399,12 @@ def run_unit(unit, tier):
 
 
 def replay(case):
+    if case.get('special'):
+        blk = dict(SPECIAL)[case['special']]
+        try:
+            return run_block(blk, case['generator_reduction'], case)[1][:1]
+        finally:
+            shutil.rmtree(scratch_dir(), ignore_errors=True)
     blk = dress([tuple(e) for e in case['eqs']], case['dress'], case['maxtime'], case['excess'])
     try:
         return run_block(blk, case['generator_reduction'], case)[1][:1]
